@@ -161,7 +161,7 @@ def c02(run):
 
 
 def c03(run):
-    gens = [("Gen_Window", "win", 8, 16, 6000, 60000, ["WindowLaw", "EmitWin"], 1000),
+    gens = [("Gen_Window", "win", 8, 16, 9000, 90000, ["WindowLaw", "EmitWin"], 1000),
             ("Gen_Window", "win500", 64, 128, 1000, 12000, ["EmitWin"], 500)]
     return query_check(
         run, gens, RESULT,
@@ -313,7 +313,7 @@ def c19(run):
                        distinct_nontrivial=executed)
 
 
-STREAM = {"S1", "S2", "S3", "S4", "S5", "S6", "S7", "S8"}
+STREAM = {"S1", "S2", "S3", "S4", "S5", "S6", "S7", "S8", "S9"}
 
 
 def c18(run):
@@ -340,7 +340,7 @@ def c18(run):
                              "every physical plan built for the scenarios of all query generators (TLC), Gen_WF and random ones is wrapped at "
                              "the exported operator interface (hook H1, reflection over all operator fields) and executed in four modes "
                              "(passive, Series() first on every operator, one extra Next() after every end, seeded yields/sleeps at every "
-                             "call); TLC validates clauses S1-S8 of StreamTrace.tla on every Series/Next event and SessionTrace.tla checks "
+                             "call); TLC validates clauses S1-S9 of StreamTrace.tla on every Series/Next event and SessionTrace.tla checks "
                              "that the four modes return the same result. distinct_nontrivial = operator instances observed."),
                        assumptions=["event order = global atomic sequence numbers taken at call entry and return", "batch size B = 10 (stepsBatch)"],
                        distinct_nontrivial=st.get("ops", 0))
@@ -594,6 +594,11 @@ def extreme_params(run, binary):
     quick = run.tier == "quick"
     scs = vlib.generate(run, "Gen_Agg", gen_cfg(run.tier, run.seed, 1, ["EmitAgg"]), "agg", fam="C13", cap=(2500 if quick else 40000), timeout=1500)
     scs += vlib.generate(run, "Gen_WF", gen_cfg(run.tier, run.seed, 1, ["EmitWF"]), "wf", fam="C13")
+    # planning is part of "no query can crash the process": selectors in every syntactic position next to selectors the
+    # optimizers merge them with (Optimizer.tla's pairs, emission only), and a sample of every query family
+    scs += vlib.generate(run, "Optimizer", gen_cfg(run.tier, run.seed, 32 if quick else 40, ["EmitOpt"]), "opt", fam="C13",
+                         cap=(4500 if quick else 30000), timeout=1500)
+    scs += all_scenarios(run, 100, 2000, only=("bin", "fn", "cmp", "hist", "shard"))
     traces = vlib.replay(run, binary, "query", scs, "xp", chunks=max(1, min(vlib.NCPU // 2, len(scs) // 400)))
     # unusual windows through the API: steps below a millisecond (500 us, 1 ns, 1.5 ms), start after end
     aw = []
@@ -668,8 +673,9 @@ def fault_check(run, rule_extra, assumptions):
 def c13(run):
     return fault_check(run, "a runtime panic (a value implementing runtime.Error) raised inside the k-th callback on whichever goroutine evaluates it; "
                             "the run must end with the query's error, the child process must survive. Before that, the aggregation scenarios of "
-                            "Gen_Agg.tla (parameters 0, -1, NaN, Inf, 1e18, 1e11, 1e300, per-step, NaN exactly on empty steps) and Gen_WF.tla "
-                            "(1e308, denormals, empty inputs) are replayed in child processes: a dead child, or an internal error where the "
+                            "Gen_Agg.tla (parameters 0, -1, NaN, Inf, 1e18, 1e11, 1e300, per-step, NaN exactly on empty steps), Gen_WF.tla "
+                            "(1e308, denormals, empty inputs), the selector pairs of Optimizer.tla in 17 syntactic positions and a sample of every "
+                            "query family are replayed in child processes: a dead child, or an internal error where the "
                             "reference engine returns a value, is a violation.",
                        ["extreme parameters and degenerate data are exercised by C04/C06/C01's generators (crashes there are attributed to C13 as ProcessDead)",
                         "a dead child process identifies the crashing scenario; the batch resumes after it"])
